@@ -78,7 +78,15 @@ def plane_lattice_pairs(tier, seed):
 
 def run_pair(c):
     g, h = np.array(c["g"], float), np.array(c["h"], float)
-    if X.rank([fr(c["g"]), fr(c["h"])]) < 2:
+    if c.get("im"):
+        # complex lines / planes (Gaussian-integer coordinates): the matrix of the pair is complex symmetric, not Hermitian
+        ig, ih = c["im"]
+        if len(ig) != len(g) or len(ih) != len(h):
+            raise Skip("malformed")
+        g, h = g + 1j * np.array(ig, float), h + 1j * np.array(ih, float)
+        if np.linalg.matrix_rank(np.stack([g, h])) < 2 or not np.any(g) or not np.any(h):
+            raise Skip("proportional")
+    elif X.rank([fr(c["g"]), fr(c["h"])]) < 2:
         raise Skip("proportional")
     sg = C.scale_value(c["sg"]) if "sg" in c else 1.0
     sh = C.scale_value(c["sh"]) if "sh" in c else 1.0
@@ -114,7 +122,8 @@ def gen_pair(draw, tier="quick"):
         k = draw(st.integers(0, n - 1))
         g = [0 if i == k else x for i, x in enumerate(g)]
         h = [0 if i == (k + 1) % n else x for i, x in enumerate(h)]
-    return {"g": g, "h": h, "sg": draw(C.scale()), "sh": draw(C.scale()), "kind": kind, "coll": draw(st.sampled_from([0, 0, 2, 3, 64, 70]))}
+    im = [[draw(C.ints(4)) for _ in range(n)], [draw(C.ints(4)) for _ in range(n)]] if draw(st.integers(0, 3)) == 0 else None
+    return {"g": g, "h": h, "sg": draw(C.scale()), "sh": draw(C.scale()), "kind": kind, "coll": draw(st.sampled_from([0, 0, 2, 3, 64, 70])) if im is None else 0, "im": im}
 
 
 def run_gen_pair(c):
@@ -367,7 +376,7 @@ LAWS = [
     Law("plane_pairs_lattice", None, run_pair, pair_nontrivial, lambda c: [], enumerate=plane_lattice_pairs, enum_shards=8,
         exhaustive=lambda tier: {"name": "pairs of vectors of {-2..2}^4 as plane pairs, stride sample", "size": 624 * 624 // (389 if tier == "quick" else 41), "exhaustive": False},
         rule="Quadric.from_planes(e,f): degenerate, components = {e,f}"),
-    Law("generated_pairs", lambda tier: gen_pair(tier), run_gen_pair, pair_nontrivial, lambda c: [f"n{len(c['g'])}", c["kind"], "coll" if c["coll"] else "single"] + (["collection>=64"] if c["coll"] >= 64 else []),
+    Law("generated_pairs", lambda tier: gen_pair(tier), run_gen_pair, pair_nontrivial, lambda c: [f"n{len(c['g'])}", c["kind"], "coll" if c["coll"] else "single"] + (["collection>=64"] if c["coll"] >= 64 else []) + (["complex-pair"] if c.get("im") else []),
         {"quick": 2000, "thorough": 40000}, "generated line/plane pairs, all sign patterns, parallel / at infinity / zeros, collections", shard=300),
     Law("not_reducible", lambda tier: nondeg_case(tier), run_nondeg, lambda c: True, lambda c: [c["what"], f"d{c['d']}"], {"quick": 800, "thorough": 15000},
         "non-degenerate quadrics are not degenerate; rank >= 3 quadrics of 3-space raise NotReducible", shard=300),
